@@ -254,3 +254,276 @@ Definition tg_agree_rest (rest : list bytes) : tag_agree :=
 
 Lemma tg_agree_unfold raw : tag_agree_of raw = tg_agree_rest (skipn 3 (header_of (split_lines raw))).
 Proof. reflexivity. Qed.
+
+(* ---- the shape person_ok_tag describes: name SP '<' mail '>' tail ---- *)
+Lemma tg_person_shape v : person_ok_tag v = true ->
+  exists x m a, v = x ++ SPC :: LT :: m ++ GT :: a /\
+    has_byte LT x = false /\ has_byte GT x = false /\ has_byte LT m = false /\ has_byte GT m = false /\
+    has_byte LT a = false /\ has_byte GT a = false /\
+    first_is SPC x = false /\ last_is SPC x = false.
+Proof.
+  unfold person_ok_tag, person_ok. intros H. apply andb_true_iff in H as [H Hsp]. apply andb_true_iff in H as [Hp Hc].
+  destruct (index_of LT v) as [[|p]|] eqn:Ei; try discriminate.
+  destruct (tg_index_of_split _ _ _ Ei) as [Hv [Hb Hlen]].
+  apply andb_true_iff in Hp as [Hp Hname]. apply andb_true_iff in Hp as [Hla Hga].
+  apply negb_true_iff in Hla. apply Nat.eqb_eq in Hga, Hc.
+  apply andb_true_iff in Hsp as [Hsp Hlast]. apply N.eqb_eq in Hsp. apply negb_true_iff in Hlast.
+  set (before := firstn (S p) v) in *. set (after := skipn (S (S p)) v) in *. clearbody before after.
+  clear Ei. subst v.
+  assert (Hbne : before <> []) by (intros E; rewrite E in Hlen; discriminate).
+  destruct (tg_last_split _ Hbne) as [x [c Ebef]]. subst before. clear Hbne.
+  assert (Hxl : List.length x = p) by (rewrite app_length in Hlen; cbn [List.length] in Hlen; lia).
+  rewrite <- app_assoc in Hsp, Hlast, Hc. cbn [app] in Hsp, Hlast, Hc. rewrite <- Hxl in Hsp, Hlast.
+  rewrite tg_nth_middle in Hsp. subst c. rewrite firstn_app_exact in Hlast.
+  rewrite has_byte_app in Hb. apply orb_false_iff in Hb as [Hbx _].
+  change (x ++ SPC :: LT :: after) with (x ++ [SPC; LT] ++ after) in Hc. rewrite !tg_count_app, Hga in Hc.
+  change (count_byte GT [SPC; LT]) with 0%nat in Hc.
+  assert (Hgx : has_byte GT x = false) by (apply tg_has_of_count; lia).
+  destruct (tg_count_unique _ _ Hga) as [m [a [Eaft [Hgm Hga']]]]. subst after.
+  rewrite has_byte_app, has_byte_cons in Hla. apply orb_false_iff in Hla as [Hlm Hla]. apply orb_false_iff in Hla as [_ Hla].
+  rewrite trim_right_snoc, (trim_right_id _ _ Hlast) in Hname.
+  exists x, m, a. split; [now rewrite <- app_assoc|]. repeat split; try assumption.
+  destruct x as [|x0 x']; [reflexivity|]. apply andb_true_iff in Hname as [Hname _]. apply negb_true_iff in Hname. exact Hname.
+Qed.
+
+(* ---- go-git on that shape ---- *)
+Lemma tg_decode_time_ne nm em b : id_name (decode_time nm em b) = nm /\ id_email (decode_time nm em b) = em.
+Proof.
+  unfold decode_time. destruct (parse_int64 _); [|now split]. destruct (_ || _)%bool; [now split|].
+  destruct (parse_int64 _); [|now split]. destruct (parse_int64 _); now split.
+Qed.
+
+Lemma tg_skipn_S_tl {A} n : forall l : list A, skipn (S n) l = tl (skipn n l).
+Proof. induction n as [|n IH]; intros [|x l]; try reflexivity. cbn [skipn]. destruct n; [now destruct l|apply IH]. Qed.
+
+Lemma tg_decode_ident_shape x m a :
+  has_byte LT m = false -> has_byte LT a = false -> has_byte GT a = false ->
+  first_is SPC x = false -> last_is SPC x = false ->
+  decode_ident (x ++ SPC :: LT :: m ++ GT :: a) =
+    if Nat.ltb 1 (List.length a) then decode_time x m (tl a) else mk_ident x m zero_ts 0.
+Proof.
+  intros Hlm Hla Hga Hfx Hlx.
+  assert (A1 : has_byte LT (m ++ GT :: a) = false) by (rewrite has_byte_app, has_byte_cons, Hlm, Hla; reflexivity).
+  set (v := x ++ SPC :: LT :: m ++ GT :: a).
+  assert (V1 : v = (x ++ [SPC]) ++ LT :: m ++ GT :: a) by (unfold v; now rewrite <- app_assoc).
+  assert (V2 : v = (x ++ SPC :: LT :: m) ++ GT :: a) by (unfold v; now rewrite <- app_assoc).
+  assert (V3 : v = ((x ++ [SPC]) ++ [LT]) ++ m ++ GT :: a) by (unfold v; now rewrite <- !app_assoc).
+  assert (V4 : v = ((x ++ SPC :: LT :: m) ++ [GT]) ++ a) by (unfold v; now rewrite <- !app_assoc).
+  assert (Alt : last_index_of LT v = Some (List.length (x ++ [SPC]))) by (rewrite V1; now apply last_index_of_unique).
+  assert (Agt : last_index_of GT v = Some (List.length (x ++ SPC :: LT :: m))) by (rewrite V2; now apply last_index_of_unique).
+  assert (F1 : firstn (List.length (x ++ [SPC])) v = x ++ [SPC]) by (rewrite V1; apply firstn_app_exact).
+  assert (F2 : slice (S (List.length (x ++ [SPC]))) (List.length (x ++ SPC :: LT :: m)) v = m).
+  { unfold slice. rewrite V3.
+    replace (S (List.length (x ++ [SPC]))) with (List.length ((x ++ [SPC]) ++ [LT]))
+      by (rewrite !app_length; cbn [List.length]; lia).
+    rewrite skipn_app_exact.
+    replace (List.length (x ++ SPC :: LT :: m) - List.length ((x ++ [SPC]) ++ [LT]))%nat with (List.length m)
+      by (rewrite !app_length; cbn [List.length]; lia).
+    apply firstn_app_exact. }
+  assert (F3 : skipn (List.length (x ++ SPC :: LT :: m) + 2) v = tl a).
+  { replace (List.length (x ++ SPC :: LT :: m) + 2)%nat with (S (List.length ((x ++ SPC :: LT :: m) ++ [GT])))
+      by (rewrite !app_length; cbn [List.length]; lia).
+    rewrite tg_skipn_S_tl, V4, skipn_app_exact. reflexivity. }
+  assert (F4 : Nat.ltb (List.length (x ++ SPC :: LT :: m)) (List.length (x ++ [SPC])) = false)
+    by (apply Nat.ltb_ge; rewrite !app_length; cbn [List.length]; lia).
+  assert (F5 : Nat.ltb (List.length (x ++ SPC :: LT :: m) + 2) (List.length v) = Nat.ltb 1 (List.length a)).
+  { rewrite V2, !app_length. cbn [List.length].
+    destruct (Nat.ltb_spec 1 (List.length a)); [apply Nat.ltb_lt|apply Nat.ltb_ge]; lia. }
+  clearbody v. unfold decode_ident. rewrite Alt, Agt, F4, F1, F2, F3, F5.
+  unfold trim_both. rewrite trim_right_snoc, (trim_right_id _ _ Hlx), (trim_left_id _ _ Hfx). reflexivity.
+Qed.
+
+(* ---- git (ref-filter.c copy_name / copy_email / grab_date) on that shape ---- *)
+Lemma tg_copy_name x y : no_lf x = true -> has_byte LT x = false -> copy_name_aux (x ++ SPC :: LT :: y) = Some x.
+Proof.
+  induction x as [|c x IH]; intros Hlf Hlt; [reflexivity|].
+  rewrite no_lf_cons in Hlf. apply andb_true_iff in Hlf as [H1 H2]. apply negb_true_iff in H1.
+  rewrite has_byte_cons in Hlt. apply orb_false_iff in Hlt as [H3 H4].
+  cbn [app copy_name_aux]. rewrite H1.
+  assert (F : first_is 60 (x ++ SPC :: LT :: y) = false).
+  { destruct x as [|d x']; [reflexivity|]. cbn [app first_is]. rewrite has_byte_cons in H4.
+    apply orb_false_iff in H4 as [H5 _]. rewrite N.eqb_sym. exact H5. }
+  rewrite F, andb_false_r, (IH H2 H4). reflexivity.
+Qed.
+
+Lemma tg_copy_email x m y : has_byte LT x = false -> has_byte GT m = false ->
+  git_copy_email (x ++ LT :: m ++ GT :: y) = LT :: m ++ [GT].
+Proof.
+  intros Hx Hm. unfold git_copy_email. change 60 with LT. change 62 with GT.
+  rewrite (index_of_first _ _ _ Hx), skipn_app_exact.
+  assert (Hm' : has_byte GT (LT :: m) = false) by (rewrite has_byte_cons, Hm; reflexivity).
+  change (LT :: m ++ GT :: y) with ((LT :: m) ++ GT :: y). rewrite (index_of_first _ _ _ Hm').
+  replace (S (List.length (LT :: m))) with (List.length ((LT :: m) ++ [GT])) by (rewrite app_length; cbn [List.length]; lia).
+  replace ((LT :: m) ++ GT :: y) with (((LT :: m) ++ [GT]) ++ y) by (now rewrite <- app_assoc).
+  rewrite firstn_app_exact. reflexivity.
+Qed.
+
+Lemma tg_find_gt_sp y z : has_byte GT y = false -> find_gt_sp (y ++ GT :: SPC :: z) = Some z.
+Proof.
+  induction y as [|c y IH]; intros H; [reflexivity|]. rewrite has_byte_cons in H. apply orb_false_iff in H as [H1 H2].
+  cbn [app find_gt_sp]. replace (c =? 62) with false by (rewrite N.eqb_sym; symmetry; exact H1). cbn [andb]. now apply IH.
+Qed.
+
+(* ---- zones: Go's "-0700" of the decoded offset is git's "%+05d" ---- *)
+Definition tg_zone_row (hh : N) : bool :=
+  forallb (fun k => let mm := N.of_nat k in
+            beqb (fmt_zone (Z.of_N (60 * hh + mm))) (fmt_plus05 (Z.of_N (100 * hh + mm))) &&
+            beqb (fmt_zone (- Z.of_N (60 * hh + mm))) (fmt_plus05 (- Z.of_N (100 * hh + mm)))) (seq 0 60).
+Lemma tg_zone_table : forallb (fun k => tg_zone_row (N.of_nat k)) (seq 0 100) = true.
+Proof. vm_compute. reflexivity. Qed.
+
+Lemma tg_zone_agree hh mm : hh < 100 -> mm < 60 ->
+  fmt_zone (Z.of_N (60 * hh + mm)) = fmt_plus05 (Z.of_N (100 * hh + mm)) /\
+  fmt_zone (- Z.of_N (60 * hh + mm)) = fmt_plus05 (- Z.of_N (100 * hh + mm)).
+Proof.
+  intros Hh Hm. pose proof tg_zone_table as T. rewrite forallb_forall in T.
+  specialize (T (N.to_nat hh) ltac:(apply in_seq; lia)). rewrite N2Nat.id in T. unfold tg_zone_row in T.
+  rewrite forallb_forall in T. specialize (T (N.to_nat mm) ltac:(apply in_seq; lia)). cbv zeta in T. rewrite N2Nat.id in T.
+  apply andb_true_iff in T as [T1 T2]. now apply beqb_eq in T1, T2.
+Qed.
+
+Lemma tg_two_digits_facts a b n : two_digits a b = Some n ->
+  is_digit a = true /\ is_digit b = true /\ n = 10 * (a - 48) + (b - 48) /\ n < 100 /\ digits_val [a; b] = Some n.
+Proof.
+  unfold two_digits. destruct (is_digit a) eqn:Ea, (is_digit b) eqn:Eb; try discriminate. cbn [andb]. intros H.
+  assert (Hn : 10 * (a - 48) + (b - 48) = n) by (now injection H). clear H. subst n.
+  repeat split; try (unfold is_digit in *; lia).
+  unfold digits_val. cbn [digits_acc]. rewrite Ea, Eb. f_equal; lia.
+Qed.
+
+Lemma tg_digits_acc_fold l : forall a, forallb is_digit l = true ->
+  digits_acc a l = Some (fold_left (fun a c => 10 * a + (c - 48)) l a).
+Proof.
+  induction l as [|x l IH]; intros a Hd; [reflexivity|].
+  cbn [forallb] in Hd. apply andb_true_iff in Hd as [H1 H2]. cbn [digits_acc fold_left]. rewrite H1. now apply IH.
+Qed.
+
+Lemma tg_dval_digits ds : forallb is_digit ds = true -> ds <> [] -> digits_val ds = Some (dval ds).
+Proof.
+  intros Hd Hne. unfold digits_val, dval. destruct ds as [|c r]; [contradiction|]. now apply tg_digits_acc_fold.
+Qed.
+
+(* decodeTimeAndTimeZone on "<digits> <sign>hhmm<rest>" *)
+Lemma tg_decode_time_canon nm em ds sg h1 h2 m1 m2 rest ts :
+  has_byte SPC ds = false -> parse_int64 ds = Some ts ->
+  decode_time nm em (ds ++ SPC :: sg :: h1 :: h2 :: m1 :: m2 :: rest) =
+  match parse_int64 [sg; h1; h2], parse_int64 [m1; m2] with
+  | Some h, Some m => mk_ident nm em ts (h * 60 + (if (h <? 0)%Z then (- m)%Z else m))%Z
+  | _, _ => mk_ident nm em ts 0
+  end.
+Proof.
+  intros Hsp Hp. unfold decode_time.
+  rewrite (index_of_first _ _ _ Hsp), firstn_app_exact, Hp.
+  rewrite app_length. cbn [List.length].
+  replace (Nat.leb (List.length ds + S (S (S (S (S (S (List.length rest))))))) (S (List.length ds)) ||
+           Nat.ltb (List.length ds + S (S (S (S (S (S (List.length rest))))))) (S (List.length ds) + 5))%bool
+    with false by (clear; symmetry; apply orb_false_iff; split; [apply Nat.leb_gt|apply Nat.ltb_ge]; lia).
+  unfold slice. replace (S (List.length ds) + 5 - S (List.length ds))%nat with 5%nat by (clear; lia).
+  replace (skipn (S (List.length ds)) (ds ++ SPC :: sg :: h1 :: h2 :: m1 :: m2 :: rest)) with (sg :: h1 :: h2 :: m1 :: m2 :: rest).
+  - reflexivity.
+  - replace (ds ++ SPC :: sg :: h1 :: h2 :: m1 :: m2 :: rest) with ((ds ++ [SPC]) ++ sg :: h1 :: h2 :: m1 :: m2 :: rest)
+      by (now rewrite <- app_assoc).
+    replace (S (List.length ds)) with (List.length (ds ++ [SPC])) by (clear; rewrite app_length; cbn [List.length]; lia).
+    now rewrite skipn_app_exact.
+Qed.
+
+(* grab_date after the "> " *)
+Definition tg_grab (t : bytes) : option bytes :=
+  let ds := take_while is_digit t in
+  match ds, skipn (List.length ds) t with
+  | _ :: _, sp :: s :: t3 =>
+    if (sp =? SPC) && ((s =? 43) || (s =? 45)) then
+      match take_while is_digit t3 with
+      | [] => None
+      | zs =>
+        if (2 ^ 63 <=? dval ds) || (Nat.ltb 9 (List.length zs)) then None
+        else
+          let tzv := Z.of_N (dval zs) in
+          Some (print_dec (dval ds) ++ [SPC] ++ fmt_plus05 (if s =? 45 then (- tzv)%Z else tzv))
+      end
+    else None
+  | _, _ => None
+  end.
+
+Lemma tg_grab_date_unfold b :
+  git_grab_date b = match find_gt_sp b with None => Some [] | Some t => tg_grab t end.
+Proof. reflexivity. Qed.
+
+(* the date part: what follows '>' *)
+Lemma tg_date_matches nm em a rest : date_canon a = true ->
+  (match rest with c :: _ => is_digit c = false | [] => True end) ->
+  exists t, a = SPC :: t /\ (1 < List.length a)%nat /\
+    tg_grab (t ++ rest) = Some (go_date_t (decode_time nm em t)).
+Proof.
+  unfold date_canon. destruct a as [|sp t]; [discriminate|]. intros H Hrest0. apply andb_true_iff in H as [Hsp H].
+  apply N.eqb_eq in Hsp. subst sp.
+  pose proof (tg_take_drop is_digit t) as Ht. pose proof (tg_take_while_all is_digit t) as Hds.
+  set (ds := take_while is_digit t) in *.
+  destruct ds as [|d0 ds0] eqn:Eds; [discriminate|]. rewrite <- Eds in *.
+  assert (Hne : ds <> []) by (rewrite Eds; discriminate). clear Eds d0 ds0.
+  destruct (skipn (List.length ds) t) as [|sp2 [|s [|h1 [|h2 [|m1 [|m2 rest1]]]]]] eqn:Esk; try discriminate.
+  clear Esk. clearbody ds. subst t.
+  apply andb_true_iff in H as [H Hz]. apply andb_true_iff in H as [H Hv]. apply andb_true_iff in H as [Hsp2 Hs].
+  apply N.eqb_eq in Hsp2. subst sp2.
+  destruct (two_digits h1 h2) as [hh|] eqn:Ehh; [|discriminate]. destruct (two_digits m1 m2) as [mm|] eqn:Emm; [|discriminate].
+  apply andb_true_iff in Hz as [Hz Hrest]. apply andb_true_iff in Hz as [Hmm Hneg0].
+  destruct (tg_two_digits_facts _ _ _ Ehh) as [Dh1 [Dh2 [Vh [Bh Ph]]]].
+  destruct (tg_two_digits_facts _ _ _ Emm) as [Dm1 [Dm2 [Vm [Bm Pm]]]].
+  assert (Hspds : has_byte SPC ds = false).
+  { apply (has_byte_forall is_digit); [|exact Hds]. intros x Hx. now apply digit_not_sign in Hx. }
+  assert (Hv' : dval ds < 2 ^ 63) by (clear - Hv; lia).
+  assert (Hpts : parse_int64 ds = Some (Z.of_N (dval ds))).
+  { apply parse_int64_digits; [exact Hne|exact Hds|now apply tg_dval_digits|clear - Hv'; lia]. }
+  assert (Hmm' : mm < 60) by (clear - Hmm; lia).
+  exists (ds ++ SPC :: s :: h1 :: h2 :: m1 :: m2 :: rest1). split; [reflexivity|]. split.
+  { cbn [List.length]. rewrite app_length. cbn [List.length]. clear. lia. }
+  (* go-git *)
+  rewrite (tg_decode_time_canon nm em ds s h1 h2 m1 m2 rest1 _ Hspds Hpts).
+  assert (Pmm : parse_int64 [m1; m2] = Some (Z.of_N mm)).
+  { apply parse_int64_digits; [discriminate| |exact Pm|clear - Bm; lia]. cbn [forallb]. now rewrite Dm1, Dm2. }
+  rewrite Pmm.
+  (* git *)
+  rewrite <- app_assoc. cbn [app]. unfold tg_grab. cbv zeta.
+  assert (Etw : take_while is_digit (ds ++ SPC :: s :: h1 :: h2 :: m1 :: m2 :: rest1 ++ rest) = ds)
+    by (apply tg_take_while_app; [exact Hds|reflexivity]).
+  rewrite Etw.
+  destruct ds as [|d0 ds0] eqn:Eds; [contradiction|]. cbv beta iota. rewrite <- Eds in *. clear Eds d0 ds0.
+  rewrite skipn_app_exact. cbv beta iota.
+  assert (Ezs : take_while is_digit (h1 :: h2 :: m1 :: m2 :: rest1 ++ rest) = [h1; h2; m1; m2]).
+  { change (h1 :: h2 :: m1 :: m2 :: rest1 ++ rest) with ([h1; h2; m1; m2] ++ rest1 ++ rest). apply tg_take_while_app.
+    - cbn [forallb]. now rewrite Dh1, Dh2, Dm1, Dm2.
+    - destruct rest1 as [|r0 rest1']; [exact Hrest0|]. cbn [app]. now apply negb_true_iff in Hrest. }
+  rewrite Ezs. rewrite N.eqb_refl, Hs. cbn [andb]. cbv beta iota.
+  replace (2 ^ 63 <=? dval ds) with false by (clear - Hv'; lia).
+  change (Nat.ltb 9 (List.length [h1; h2; m1; m2])) with false. cbn [orb]. cbv beta iota.
+  assert (Hdz : dval [h1; h2; m1; m2] = 100 * hh + mm).
+  { unfold dval. cbn [fold_left]. clear - Vh Vm Dh1 Dh2 Dm1 Dm2. unfold is_digit in *. lia. }
+  rewrite Hdz.
+  destruct (tg_zone_agree hh mm Bh Hmm') as [Zp Zn].
+  f_equal. unfold go_date_t.
+  apply orb_true_iff in Hs as [Hs|Hs]; apply N.eqb_eq in Hs; subst s.
+  - replace (43 =? 45) with false by reflexivity.
+    unfold parse_int64. replace (43 =? 43) with true by reflexivity. rewrite Ph.
+    replace ((- 2 ^ 63 <=? Z.of_N hh) && (Z.of_N hh <? 2 ^ 63))%Z with true by (clear - Bh; lia).
+    replace (Z.of_N hh <? 0)%Z with false by (clear; lia).
+    cbn [id_ts id_tz].
+    replace ((Z.of_N (dval ds) =? zero_ts) && (Z.of_N hh * 60 + Z.of_N mm =? 0))%Z with false by (clear; unfold zero_ts; lia).
+    rewrite N2Z.id. replace (Z.of_N hh * 60 + Z.of_N mm)%Z with (Z.of_N (60 * hh + mm)) by (clear; lia).
+    now rewrite Zp.
+  - replace (45 =? 45) with true by reflexivity.
+    unfold parse_int64. replace (45 =? 43) with false by reflexivity. replace (45 =? 45) with true by reflexivity. rewrite Ph.
+    replace ((- 2 ^ 63 <=? - Z.of_N hh) && (- Z.of_N hh <? 2 ^ 63))%Z with true by (clear - Bh; lia).
+    cbn [id_ts id_tz].
+    replace (45 =? 45) with true in Hneg0 by reflexivity. cbn [andb] in Hneg0.
+    destruct (hh =? 0) eqn:Eh0.
+    + (* -00mm: the guard forces mm = 0 *)
+      apply N.eqb_eq in Eh0. subst hh. cbn [andb negb] in Hneg0. apply negb_true_iff, negb_false_iff, N.eqb_eq in Hneg0. subst mm.
+      replace (- Z.of_N 0 <? 0)%Z with false by reflexivity.
+      replace ((Z.of_N (dval ds) =? zero_ts) && (- Z.of_N 0 * 60 + Z.of_N 0 =? 0))%Z with false by (clear; unfold zero_ts; lia).
+      rewrite N2Z.id. replace (- Z.of_N 0 * 60 + Z.of_N 0)%Z with (- Z.of_N (60 * 0 + 0))%Z by reflexivity.
+      now rewrite Zn.
+    + apply N.eqb_neq in Eh0. replace (- Z.of_N hh <? 0)%Z with true by (clear - Eh0; lia).
+      replace ((Z.of_N (dval ds) =? zero_ts) && (- Z.of_N hh * 60 + - Z.of_N mm =? 0))%Z with false by (clear; unfold zero_ts; lia).
+      rewrite N2Z.id. replace (- Z.of_N hh * 60 + - Z.of_N mm)%Z with (- Z.of_N (60 * hh + mm))%Z by (clear; lia).
+      now rewrite Zn.
+Qed.
